@@ -42,6 +42,7 @@ ERR = {
 
 KNOWN_CLOSE_NOT_RECORDED = 'ws-close-send-failure-not-recorded'
 KNOWN_HANDLER_NO_CLOSE = 'ws-custom-error-handler-leaves-socket-unclosed'
+KNOWN_PUMP_STOPPED = 'ws-receive-after-incomplete-close-assertion'
 
 
 class CustomErr(Exception):
@@ -70,6 +71,7 @@ class Ctx:
         self.res_mw_args = None
         self.ops = {}
         self.oplog = []             # (site, op name, result, [attempt outcomes])
+        self.diverged_at = None
 
 
 CTX = Ctx()
@@ -174,6 +176,8 @@ async def run_site(site, ws, steps):
             c.attributed.update(a[0] for a in att)
             model.judge(s, facts, att, res)
             c.oplog.append((site, n, res, [a[2] for a in att]))
+            if model.diverged and c.diverged_at is None:
+                c.diverged_at = len(c.oplog) - 1
             c.judged += 1
             c.ops[n] = c.ops.get(n, 0) + 1
             if res[0] == 'exc' and step.get('prop'):
@@ -466,7 +470,9 @@ def _judge_end(o, P):
             codes = M.expected_final_code(terminal, case['err_code'], set(case['reject']))
         got_codes = [a[1].get('code', 1000) if isinstance(a[1], dict) else None for a in fw]
         injected = any(a[2] != 'sent' and a[2] != 'raised:invalid_close_code' for a in fw)
-        if not injected:
+        if terminal[0] == 'handled':
+            pass        # a custom handler took over: only "some close is sent" (below) is demanded
+        elif not injected:
             if got_codes != codes:
                 P.append(('final-close-code', {'terminal': list(terminal), 'want': codes, 'got': got_codes,
                                                'events': [a[1] for a in fw]}))
@@ -503,22 +509,43 @@ def classify_exc(ex):
     return ('unexpected',)
 
 
-def known_key(o):
-    """Narrow classifiers for defects of the unchanged tree (see final report / known_findings.json)."""
-    kinds = {p[0] for p in o.problems}
-    drv, case = o.drv, o.case
+def explain(o):
+    """Split the problems of one session by mechanism: [(known_key or None, [problems])].
+
+    Narrow classifiers for defects of the unchanged tree (see known_findings.json); anything they do not
+    cover stays an unclassified violation."""
+    drv, case, c = o.drv, o.case, CTX
+    rest = list(o.problems)
+    out = []
+
+    def take(key, pred):
+        got = [p for p in rest if pred(p)]
+        if got:
+            out.append((key, got))
+            for p in got:
+                rest.remove(p)
+
     # (1) WebSocket.close() sends through the raw send callable: a connection-lost error raised by the
     #     server while sending websocket.close is neither translated nor recorded, so later operations
     #     and the framework's own close try to send again.
-    if drv.lost and drv.lost_on == 'websocket.close' and kinds and kinds <= {
-            'wire:after-lost', 'model:event-on-closed', 'framework-event-on-finished-connection'}:
+    if drv.lost and drv.lost_on == 'websocket.close' and case['fail']:
         later = [a for a in drv.attempts if a[2].startswith('raised:') and a[0] > case['fail']['at']]
         if later:
-            return KNOWN_CLOSE_NOT_RECORDED
+            take(KNOWN_CLOSE_NOT_RECORDED, lambda p: p[0] == 'wire:after-lost')
+    # (3) close() stops the receive pump first; when it then does not complete (invalid code -> ValueError,
+    #     client already gone -> silent no-op, server send raised) the socket stays "accepted" with no pump and
+    #     the next receive_*() trips an internal assertion instead of working / raising WebSocketDisconnected
+    if c.diverged_at is not None and case['queue'] > 0:
+        site, opname, res, _ = c.oplog[c.diverged_at]
+        if opname.startswith('receive_') and res[0] == 'exc' and type(res[1]) is AssertionError:
+            if any(e[1] == 'close' and 'sent' not in e[3] for e in c.oplog[:c.diverged_at]):
+                take(KNOWN_PUMP_STOPPED, lambda p: p[0].startswith('model:') and p[1].get('op') == opname)
     # (2) a custom error handler that returns without closing: nothing closes the socket afterwards
-    if kinds == {'no-close-at-end'} and o.terminal == ('handled',) and drv.outcome == 'done':
-        return KNOWN_HANDLER_NO_CLOSE
-    return None
+    if o.terminal == ('handled',) and drv.outcome == 'done':
+        take(KNOWN_HANDLER_NO_CLOSE, lambda p: p[0] == 'no-close-at-end')
+    if rest:
+        out.append((None, rest))
+    return out
 
 
 def run_case(rec, case, tag):
@@ -561,12 +588,11 @@ def run_case(rec, case, tag):
         rec.count('diag.' + d)
     nontrivial = c.judged > 0 or len(drv.attempts) > 0
     rec.case(json.dumps(case, sort_keys=True) if nontrivial else None)
-    if o.problems:
-        key = known_key(o)
-        wit = {'case': case, 'problems': [[k, d] for k, d in o.problems[:6]],
+    for key, probs in explain(o) if o.problems else ():
+        wit = {'case': case, 'problems': [[k, d] for k, d in probs[:6]],
                'attempts': [[a[0], a[1], a[2]] for a in drv.attempts[:12]],
                'sites': c.sites, 'outcome': drv.outcome, 'exc': repr(drv.exc), 'terminal': o.terminal}
-        rec.violation(o.problems[0][0], wit, known_key=key)
+        rec.violation(probs[0][0], wit, known_key=key)
     return o
 
 
